@@ -536,7 +536,9 @@ func genCase(t *rapid.T) Case {
 			s.Fields = tpls[rapid.IntRange(0, len(tpls)-1).Draw(t, "which")]
 			view := gen.View(s.Fields)
 			for k := rapid.IntRange(1, 3).Draw(t, "nrec"); k > 0; k-- {
-				s.Recs = append(s.Recs, gen.Record(t, view, 300))
+				r := gen.Record(t, view, 300)
+				gen.LongPrefixes(t, view, r)
+				s.Recs = append(s.Recs, r)
 			}
 		}
 		c.Steps = append(c.Steps, s)
